@@ -33,6 +33,7 @@ static uint8 PAT[256];
 static char g_ctx[64];
 static int  g_kind[8]; /* storage kind of element (ETAG,r): 0 absent/plain, 1 linked, 2 external, 3 compressed */
 static int  g_clen[8]; /* bytes held by a compressed element */
+static uint16 g_sdref0; /* NDG reference number of the first data set */
 static int  g_sd0_grown; /* the first data set is unlimited and got records in a later session than the one that created it */
 static void
 viol(const char *sig, const char *fmt, ...)
@@ -285,6 +286,58 @@ gr_attr_locations(const char *when, int32 id, const char *what, int32 na, const 
             check_attr_location(when, "GRgetattdatainfo", what, a, an, rc, aoff, alen, av, ant, acnt, bytes, fsize);
         }
         free(av);
+    }
+}
+
+/* SDgetanndatainfo for a data set (labels, descriptions) or the file: every array size from 1 to one more than the number of
+   annotations the independent reader finds, exactly-sized heap arrays; every entry is where one of them stores its text */
+static void
+sd_ann_locations(const char *when, const fc_file *fc, int32 id, const char *what, int isfile, uint16 ndgref)
+{
+    static const ann_type T[2][2] = {{AN_DATA_LABEL, AN_DATA_DESC}, {AN_FILE_LABEL, AN_FILE_DESC}};
+    static const int      TAG[2][2] = {{104, 105}, {100, 101}};
+    for (int t = 0; t < 2; t++) {
+        int32 woff[16], wlen[16];
+        int   want = 0;
+        for (int i = 0; i < fc->ndd && want < 16; i++) {
+            const fc_dd *d = &fc->dd[i];
+            if (d->tag != TAG[isfile][t])
+                continue;
+            if (!isfile) {
+                const uint8_t *b = fc->b + d->off;
+                if (d->len < 4 || ((b[0] << 8) | b[1]) != 720 || ((b[2] << 8) | b[3]) != ndgref)
+                    continue;
+            }
+            woff[want] = d->off + (isfile ? 0 : 4), wlen[want] = d->len - (isfile ? 0 : 4);
+            want++;
+        }
+        int n = SDgetanndatainfo(id, T[isfile][t], 0, NULL, NULL);
+        if (n != want)
+            viol("datainfo:annotation-count", "%s: SDgetanndatainfo(%s, %s, count query) returns %d, the file holds %d such annotations", when, what,
+                 t ? "descriptions" : "labels", n, want);
+        for (int k = 1; k <= want + 1 && want > 0; k++) {
+            int32 *o = malloc((size_t)k * sizeof *o), *l = malloc((size_t)k * sizeof *l);
+            memset(o, 0xEE, (size_t)k * sizeof *o);
+            memset(l, 0xEE, (size_t)k * sizeof *l);
+            int got = SDgetanndatainfo(id, T[isfile][t], (unsigned)k, o, l), exp = k < want ? k : want;
+            if (got != exp)
+                viol("datainfo:annotation-return", "%s: SDgetanndatainfo(%s, %s) with arrays of %d for %d annotations returns %d", when, what, t ? "descriptions" : "labels", k, want, got);
+            for (int i = 0; i < got && i < k; i++) {
+                int found = 0;
+                for (int j = 0; j < want; j++)
+                    if (woff[j] == o[i] && wlen[j] == l[i])
+                        found = 1;
+                for (int j = 0; j < i; j++)
+                    if (o[j] == o[i])
+                        found = 0;
+                if (!found)
+                    viol("datainfo:annotation-location", "%s: SDgetanndatainfo(%s, %s) entry %d of %d: offset %d length %d is not where one of its annotations stores its text (or is reported twice)",
+                         when, what, t ? "descriptions" : "labels", i, k, (int)o[i], (int)l[i]);
+            }
+            free(o);
+            free(l);
+            mc_count("anninfo_probes", 1);
+        }
     }
 }
 
@@ -632,6 +685,7 @@ verify_file(const char *when)
         else {
             SDfileinfo(S, &nds, &nat);
             sd_attr_locations(when, S, "the SD file", nat, bytes, fsize);
+            sd_ann_locations(when, &fc, S, "the SD file", 1, 0);
             fid = Hopen(PATH, DFACC_READ, 0); /* for Hlength etc. in info callbacks */
             for (int k = 0; k < nds; k++) {
                 int32 sds = SDselect(S, k);
@@ -643,6 +697,7 @@ verify_file(const char *when)
                     continue;
                 }
                 sd_attr_locations(when, sds, nm, na, bytes, fsize);
+                sd_ann_locations(when, &fc, sds, nm, 0, (uint16)SDidtoref(sds));
                 for (int i = 0; i < rk; i++) {
                     int32 dim = SDgetdimid(sds, i), dsz = 0, dnt = 0, dna = 0;
                     char  dn[H4_MAX_NC_NAME + 1] = "";
@@ -853,6 +908,8 @@ enum_ops(mc_op *out, int max)
     if (g_nan < 2) {
         ADD(OP_AN, AN_FILE_LABEL, 0);
         ADD(OP_AN, AN_DATA_DESC, 0);
+        if (g_nsd > 0)
+            ADD(OP_AN, AN_DATA_LABEL, 0); /* a label on the first data set */
     }
     ADD(OP_REOPEN, 0, 0);
     ADD(OP_SYNC, 0, 0);
@@ -1165,6 +1222,8 @@ apply(const mc_op *op)
                 SDsetattr(S, "ga", DFNT_INT16, 2, a2);
                 SDsetattr(S, "gb", DFNT_CHAR8, 5, "hello");
             }
+            if (g_nsd == 0)
+                g_sdref0 = (uint16)SDidtoref(s);
             SDendaccess(s);
             g_nsd++;
             if (SDend(S) == FAIL || rc == FAIL)
@@ -1196,7 +1255,7 @@ apply(const mc_op *op)
             int32 A = ANstart(fid);
             if (A == FAIL)
                 return fail_op(op, "ANstart");
-            int32 a = a0 == AN_FILE_LABEL ? ANcreatef(A, AN_FILE_LABEL) : ANcreate(A, ETAG, 1, AN_DATA_DESC);
+            int32 a = a0 == AN_FILE_LABEL ? ANcreatef(A, AN_FILE_LABEL) : a0 == AN_DATA_LABEL ? ANcreate(A, DFTAG_NDG, g_sdref0, AN_DATA_LABEL) : ANcreate(A, ETAG, 1, AN_DATA_DESC);
             if (a == FAIL) {
                 ANend(A);
                 return fail_op(op, "ANcreate");
